@@ -126,36 +126,30 @@ def run(ctx: Context, col) -> None:
     if ok3:
         tests = [n for n in g.stmts() if n.kind == "test" and any(isinstance(s_, ast.Raise) or any(isinstance(y, ast.Raise) for y in ast.walk(s_)) for s_ in n.ast.body)]
         dom_ok = bool(tests) and all(g.dominates(tests[0], n) for n in norm_nodes + rets) and bool(rets)
-        # the pair located by unravel_index(argmax|row sums - 1|, row_sums.shape): (action, state) = (axis 0, axis 1) of [A, S]
-        pair = None
-        for n in g.stmts():
-            if isinstance(n.ast, ast.Assign) and isinstance(n.ast.targets[0], ast.Tuple) and isinstance(n.ast.value, ast.Call) \
-                    and ast.unparse(n.ast.value.func).endswith("unravel_index") and len(n.ast.targets[0].elts) == 2:
-                pair = [ast.unparse(x) for x in n.ast.targets[0].elts]
-        msg_ok = False
+        # the offending pair, as terms: (action, state) = unravel_index(argmax |row sums - 1|, shape(row sums)) - axes [A, S] -
+        # and the message interpolates component 1 after "state " and component 0 after "action "
+        unr = ("app", "np.unravel_index", (("app", "argmax", (("app", "abs", (T_sub(rows, K(1)),)),)), ("shape", rows)))
+        msg_ok = loc_ok = False
         for r_ in raises:
-            if r_.ast.exc is not None and pair is not None:
-                js = [x for x in ast.walk(r_.ast.exc) if isinstance(x, ast.JoinedStr)]
-                text = ""
-                for j in js:
-                    for v in j.values:
-                        text += v.value if isinstance(v, ast.Constant) else "{" + ast.unparse(v.value) + "}"
-                a_name, s_name = pair
-                msg_ok = msg_ok or (f"state {{{s_name}}}" in text and f"action {{{a_name}}}" in text)
+            m = I.raise_terms.get(r_.ast.lineno)
+            if m is None or m[0] != "app" or m[1] != "fstring":
+                continue
+            parts = m[2]
+            pos = {}
+            for k in range(1, len(parts)):
+                p_, prev = parts[k], parts[k - 1]
+                if p_[0] == "elem" and len(p_[2]) == 1 and p_[2][0] in (K(0), K(1)) and prev[0] == "const" and isinstance(prev[1], str):
+                    word = prev[1].rstrip().rsplit(" ", 1)[-1].lower()
+                    pos[word] = (p_[1], p_[2][0])
+            if "state" in pos and "action" in pos:
+                msg_ok = pos["state"][1] == K(1) and pos["action"][1] == K(0)
+                loc_ok = pos["state"][0] == unr and pos["action"][0] == unr
         if not dom_ok:
             ok3, why3 = False, "the row-sum check does not dominate the normalisation / return"
         elif not msg_ok:
             ok3, why3 = False, "the error message does not name the offending pair as `state {<axis-1 index>}` and `action {<axis-0 index>}`"
-        else:
-            # state/action must come from unravel_index(argmax |row sums - 1|, row_sums.shape) in (action, state) order
-            okidx = False
-            for n in g.stmts():
-                if isinstance(n.ast, ast.Assign) and isinstance(n.ast.targets[0], ast.Tuple) and isinstance(n.ast.value, ast.Call) \
-                        and ast.unparse(n.ast.value.func).endswith("unravel_index"):
-                    shape_arg = n.ast.value.args[1] if len(n.ast.value.args) > 1 else None
-                    okidx = isinstance(shape_arg, ast.Attribute) and shape_arg.attr == "shape" and "argmax" in ast.unparse(n.ast.value.args[0])
-            if not okidx:
-                ok3, why3 = False, "the offending pair is not located by unravel_index(argmax|row sums - 1|, <row sums>.shape)"
+        elif not loc_ok:
+            ok3, why3 = False, "the offending pair is not located by unravel_index(argmax|row sums - 1|, <row sums>.shape)"
     col.add("R17.3", construct, file, (raises[0].lineno if raises else fn.lineno), ok3, why3, text="row-sum error")
 
     # ---- R17.4
